@@ -220,6 +220,9 @@ func c19setup(c *core.Ctx) {
 		// a logical type the implementation does not know is ignored (Avro specification): the field is a plain long
 		{"plain-long/unknown-logical-type", `{"type":"long","logicalType":"x-vendor-instant"}`, 1},
 		{"plain-long/object-form", `{"type":"long"}`, 1},
+		// a logical type that does not apply to the base type is ignored as well: "date" belongs to int
+		{"plain-long/date-annotation", `{"type":"long","logicalType":"date"}`, 1},
+		{"plain-long/decimal-annotation", `{"type":"long","logicalType":"decimal"}`, 1},
 	} {
 		s, err := avro.SchemaFromString(`{"type":"record","name":"r","fields":[{"name":"t","type":` + d.typ + `}]}`)
 		if err != nil {
@@ -346,7 +349,7 @@ func runC19(c *core.Ctx, i int) {
 	if c19rb == nil {
 		c19setup(c)
 	}
-	if len(c19codecs) != 6 {
+	if len(c19codecs) != 8 {
 		return
 	}
 	r := c.Rand(i, 0)
